@@ -7,6 +7,7 @@ from .. import positives as P
 
 PROP = "C14"
 EXPLANATION = (
+    "(NOSWALLOW also covers std::thread spawn / scope / join inside the run cone: a system run on a thread of its own ends its panic in the join handle; RELEASE also forbids re-making a guard-derived reference through a raw pointer or transmutation.) "
     "Propagation order and 'siblings finish first' are rayon's contract (trusted). Decided structurally: (NOSWALLOW) no catch_unwind, "
     "resume_unwind or panic-hook manipulation anywhere in the crate, so a panic leaves run_now, the group loop, the stage loop and "
     "dispatch; dependents are later in the group or in later stages (C02), which unwinding skips; (RELEASE) guards own their cell borrow, "
